@@ -57,6 +57,16 @@ impl PropCase for Enc {
                 format!("yielded {:02x?} after the end", es.late)
             );
         }
+        // Iterator contract of the iterator encoder: size_hint() brackets the real frame length
+        {
+            let (lo, hi) = encoder_size_hint(p);
+            ensure!(
+                lo <= want.len() && hi.map(|h| h >= want.len()).unwrap_or(true),
+                "encode_streaming/size_hint",
+                format!("lower <= {} <= upper", want.len()),
+                format!("({}, {:?})", lo, hi)
+            );
+        }
         // capacity sweep: Ok <=> N >= |frame|, identical bytes when Ok
         let l = want.len();
         let mut caps: Vec<usize> = Vec::new();
@@ -74,8 +84,21 @@ impl PropCase for Enc {
                 }
             }
         }
+        // growable buffer fed by iterators whose size hint over-estimates / is unknown
+        for mode in [2u8, 3] {
+            let got = run_encode_mode(BufKind::Vec, p, mode);
+            ensure!(
+                got.as_ref() == Ok(&want),
+                &format!("encode<Vec>/itermode{}", mode),
+                format!("Ok({})", want_s),
+                match &got {
+                    Ok(g) => format!("Ok({})", hex_short(g)),
+                    Err(()) => "Err(OutOfMemory)".into(),
+                }
+            );
+        }
         for cap in caps {
-            let got = run_encode(BufKind::Arr(cap), p, cap % 2 == 1);
+            let got = run_encode_mode(BufKind::Arr(cap), p, (cap % 4) as u8);
             if cap >= l {
                 ensure!(
                     got.as_ref() == Ok(&want),
